@@ -9,6 +9,7 @@ import (
 	"strings"
 	"time"
 
+	"github.com/buildbarn/bb-storage/pkg/blobstore/local"
 	"github.com/buildbarn/bb-storage/pkg/digest"
 
 	"verifharness/hx"
@@ -35,6 +36,7 @@ type Runner struct {
 	touched      map[int]int64              // object -> NewBlock count at the start of its last successful touch
 	touchedClean map[int]bool               // ... and whether that call allocated no block
 	corrupted    bool
+	hidden       map[int]bool // objects that sat at or below a block in which corruption was detected (until re-uploaded)
 	discards     *discardReader
 	discardsSeen float64
 }
@@ -243,6 +245,11 @@ func (r *Runner) finishPut(op *pendingOp, reply string) {
 				r.uploads[id] = map[string]bool{}
 			}
 			r.uploads[id][r.objs[op.obj].Instance] = true
+			for o := range r.hidden {
+				if r.contentID(o) == id {
+					delete(r.hidden, o)
+				}
+			}
 		}
 	} else if reply == "err internal" && !r.corrupted {
 		// "block released while writing" is legitimate only when enough rotations happened meanwhile;
@@ -332,6 +339,9 @@ func (r *Runner) get(obj int) {
 	}
 	switch kind {
 	case "data":
+		if r.hidden[obj] {
+			r.oracle("C08", "an object stored in or below a block with detected corruption was served", fmt.Sprintf("Get of object %d", obj))
+		}
 		r.checkData(obj, data, "Get")
 		if _, was := r.touched[obj]; was && r.touchedClean[obj] && r.devWrites() != writesBefore && r.touched[obj] == newsBefore {
 			// touched, nothing allocated since, yet this read wrote to the medium
@@ -478,6 +488,9 @@ func (r *Runner) findMissing(objs []int) {
 				}
 				delete(r.touched, o)
 			} else {
+				if r.hidden[o] {
+					r.oracle("C08", "an object stored in or below a block with detected corruption was reported present", fmt.Sprintf("FindMissing: object %d", o))
+				}
 				// reported present: every object with this digest that the caller named must be legitimately visible
 				for _, o2 := range objs {
 					if r.Digest(o2) == d && !r.visibleAllowed(o2) {
@@ -547,6 +560,12 @@ func (r *Runner) checkComp(parent, child int, e event) {
 					r.uploads[id] = map[string]bool{}
 				}
 				r.uploads[id][r.objs[parent].Instance] = true
+				// a slice of an intact parent is a fresh, legitimate location for that content
+				for o := range r.hidden {
+					if r.contentID(o) == id {
+						delete(r.hidden, o)
+					}
+				}
 			}
 		}
 		want := r.Content(r.objs[parent].Children[child])
@@ -612,7 +631,7 @@ func (r *Runner) drainComposites() {
 func RunCase(model *hx.Model, dr *discardReader, name string, script []string) *Runner {
 	cfg, ok := ParseConfig(script[0])
 	r := &Runner{model: model, ev: make(chan event), pending: map[int]*pendingOp{}, name: name, script: script,
-		uploads: map[string]map[string]bool{}, acVersions: map[int]map[string]bool{}, touched: map[int]int64{}, touchedClean: map[int]bool{}, discards: dr, nextOp: 1000}
+		uploads: map[string]map[string]bool{}, acVersions: map[int]map[string]bool{}, touched: map[int]int64{}, touchedClean: map[int]bool{}, hidden: map[int]bool{}, discards: dr, nextOp: 1000}
 	if !ok {
 		return r
 	}
@@ -684,6 +703,11 @@ func RunCase(model *hx.Model, dr *discardReader, name string, script []string) *
 				r.drainComposites()
 				r.findMissing(os)
 			}
+		case "corrupt":
+			if okObj(n(1)) {
+				r.drainComposites()
+				r.corrupt(n(1))
+			}
 		case "comp": // comp <op> <parent> <childIdx>
 			if okObj(n(2)) && r.pending[n(1)] == nil && n(1) < 1000 {
 				r.drainComposites()
@@ -747,4 +771,65 @@ func setOf(s digest.Set) map[digest.Digest]bool {
 		m[d] = true
 	}
 	return m
+}
+
+// ---------------------------------------------------------------- corruption (flat CAS kinds on the block device)
+
+// location returns the absolute block a key currently resolves to, straight from the real index.
+func (r *Runner) location(obj int) (int64, bool) {
+	k := local.NewKeyFromString(r.Digest(obj).GetKey(r.keyFormat()))
+	r.st.Lock.RLock()
+	defer r.st.Lock.RUnlock()
+	l, err := r.st.KLM.Get(k)
+	if err != nil {
+		return 0, false
+	}
+	return int64(l.BlockIndex) + r.st.Alloc.Releases.Load(), true
+}
+
+// corrupt makes the medium return a flipped byte for the next data read and reads obj.
+func (r *Runner) corrupt(obj int) {
+	if r.st.Dev == nil || r.hier() || r.st.Cfg.Kind == "ac" || r.objs[obj].Size == 0 {
+		return
+	}
+	abs, ok := r.location(obj)
+	if !ok {
+		return
+	}
+	before := map[int]int64{}
+	for o := range r.objs {
+		if a, ok := r.location(o); ok {
+			before[o] = a
+		}
+	}
+	id := r.nextOp
+	r.nextOp++
+	r.st.Dev.CorruptReads = 1
+	kind, _ := consume(r.st.BA.Get(context.Background(), r.Digest(obj)))
+	r.st.Dev.CorruptReads = 0
+	k := r.flatKey(obj)
+	if kind == "not-found" || kind == "err unavailable" {
+		// the read never touched the medium (object gone, or the refresh reservation failed): an ordinary Get
+		reply := r.m(fmt.Sprintf("fget.begin %d %d", id, k), "-")
+		r.cmp(reply, kind, "fget")
+		r.state()
+		return
+	}
+	reply := r.m(fmt.Sprintf("fget.begin %d %d", id, k), "-")
+	if reply == "refresh" {
+		r.m(fmt.Sprintf("corrupt-op %d", id), "ok")
+		r.m(fmt.Sprintf("abort %d", id), "ok")
+	} else {
+		r.m(fmt.Sprintf("corrupt %d", k), "ok")
+	}
+	if kind != "err integrity" {
+		r.oracle("C08", "a read of corrupted data did not fail with INTERNAL", fmt.Sprintf("Get of object %d -> %s", obj, kind))
+	}
+	r.corrupted = true
+	for o, a := range before {
+		if a <= abs {
+			r.hidden[o] = true
+		}
+	}
+	r.state()
 }
